@@ -34,6 +34,8 @@ _tmp = {"dir": None}
 
 
 def setup_symbolic():
+    from props import handoff
+    handoff.setup_symbolic()
     shims.install([mr], ["min", "max"])
 
 
@@ -249,15 +251,16 @@ def h_id_counters(g):
     g.check(AND(f[0].id != f[1].id, f[1].id != f[2].id, f[0].id != f[2].id), "feature ids are distinct for every prior counter value")
 
 
-def run_samples(g, samples, strategy, base_mi, base_me):
+def run_samples(g, samples, strategy, base_mi, base_me, read_group=None):
     """the real DatasetProcessor.process_sample for a sequence of experiments (one processor object, as isoquant.py uses
     it); collect_reads / load_read_info / process_assigned_reads are fakes that feed and record the per-sample state"""
-    this = dp.DatasetProcessor.__new__(dp.DatasetProcessor)
-    this.args = Obj(read_group=None, resume=False, read_assignments=None, keep_tmp=True, gunzipped_reference=None,
-                    polya_requirement_strategy=strategy, require_monointronic_polya=base_mi, require_monoexonic_polya=base_me,
-                    polya_percentage_threshold=0.7, low_polya_percentage_threshold=0.1)
-    this.all_read_groups = set()
-    this.alignment_stat_counter = dp.EnumStats()
+    # the real constructor (no annotation, no reference to load) so that whatever it derives from the whole input is in place
+    args = Obj(read_group=read_group, resume=False, read_assignments=None, keep_tmp=True, gunzipped_reference=None,
+               polya_requirement_strategy=strategy, require_monointronic_polya=base_mi, require_monoexonic_polya=base_me,
+               polya_percentage_threshold=0.7, low_polya_percentage_threshold=0.1, no_model_construction=False,
+               _cmd_line="x", _version="v", genedb=None, needs_reference=False, check_canonical=False, cage=None,
+               input_data=Obj(samples=list(samples), has_replicas=lambda: any(len(s_.file_list) > 1 for s_ in samples)))
+    this = call(g, dp.DatasetProcessor, args)
     seen = []
     cur = {}
 
@@ -269,7 +272,8 @@ def run_samples(g, samples, strategy, base_mi, base_me):
 
     def fake_process(sample, saves):
         seen.append((this.args.requires_polya_for_construction, this.args.require_monointronic_polya, this.args.require_monoexonic_polya,
-                     this.alignment_stat_counter.stats_dict[dp.AlignmentType.unaligned]))
+                     this.alignment_stat_counter.stats_dict[dp.AlignmentType.unaligned],
+                     bool(getattr(this.args, "use_technical_replicas", False)), bool(getattr(this.args, "no_model_construction", False))))
     this.collect_reads, this.load_read_info, this.process_assigned_reads = fake_collect, fake_load, fake_process
     saved = (dp.prepare_read_groups,)
     dp.prepare_read_groups = lambda a, s_: None
@@ -293,12 +297,21 @@ def h_sample_independence(g):
         t = g.int(name + "_total_assignments", 0, 1000)
         p = g.int(name + "_polya_assignments", 0, 1000)
         g.add(p <= t)
-        return Obj(prefix=name, file_list=[["x.bam"]], read_group_file=os.path.join(d, name + ".rg"), out_raw_file=os.path.join(d, name + ".save"),
+        files = [["%s_%d.bam" % (name, i)] for i in range(1 + g.choice(name + "_extra_files", 2))]
+        return Obj(prefix=name, file_list=files, read_group_file=os.path.join(d, name + ".rg"), out_raw_file=os.path.join(d, name + ".save"),
                    total=t, polya=p, unmapped=g.int(name + "_unmapped_reads", 0, 1000))
     a, b = mk("A"), mk("B")
-    both = run_samples(g, [a, b], strategy, base_mi, base_me)
-    alone = run_samples(g, [b], strategy, base_mi, base_me)
+    read_group = [None, "file_name"][g.choice("read_group_option", 2)]
+    both = run_samples(g, [a, b], strategy, base_mi, base_me, read_group)
+    alone = run_samples(g, [b], strategy, base_mi, base_me, read_group)
+    if len(both) < 2 or len(alone) < 1:
+        g.check(len(both) == 2 and len(alone) == 1, "every experiment is processed", detail={"processed": [len(both), len(alone)]})
+        return
     x, y = both[1], alone[0]
+    g.check(x[4] == y[4], "the technical-replica filter of an experiment depends on its own files only",
+            detail={"B_files": len(b.file_list), "A_files": len(a.file_list), "after_A": x[4], "alone": y[4]})
+    g.check(x[5] == y[5], "model construction is switched on or off for an experiment by its own data only",
+            detail={"after_A": x[5], "alone": y[5]})
     g.check(AND(IFF(x[0], y[0]), IFF(x[1], y[1]), IFF(x[2], y[2])),
             "polyA requirements applied to an experiment do not depend on the experiment processed before it",
             detail={"after_A": [str(v) for v in x[:3]], "alone": [str(v) for v in y[:3]]})
@@ -461,6 +474,44 @@ def h_combined_table(n_samples):
     return fn
 
 
+def h_combine_counts(g):
+    """the real combine_counts over two experiments: count tables (with their three summary rows) and TPM tables (without) are
+    written with sentinel numerals; all four combined tables hold every feature row with each experiment's own value"""
+    import src.stats as stats
+    shims.CURRENT["g"] = g if g.symbolic else None
+    d = os.path.join(scratch(), "combine_counts")
+    shutil.rmtree(d, ignore_errors=True)
+    os.makedirs(d)
+    n_feats = 2 + g.choice("n_features", 3)
+    feats = ["F%d" % i for i in range(n_feats)]
+    samples, vals = [], {}
+    for i in range(2):
+        smp = Obj(prefix="exp%d" % i, out_gene_counts_tsv=os.path.join(d, "exp%d.gene" % i), out_transcript_counts_tsv=os.path.join(d, "exp%d.transcript" % i))
+        for level, base in (("gene", smp.out_gene_counts_tsv), ("transcript", smp.out_transcript_counts_tsv)):
+            for kind in ("counts", "tpm"):
+                with open("%s_%s.tsv" % (base, kind), "w") as fh:
+                    fh.write("#feature_id\t%s\n" % ("count" if kind == "counts" else "TPM"))
+                    for f in feats:
+                        v = g.real("exp%d_%s_%s_%s" % (i, level, kind, f), 0)
+                        vals[(i, level, kind, f)] = v
+                        fh.write("%s\t%.2f\n" % (f, v))
+                    if kind == "counts":
+                        for stat in ("__ambiguous", "__no_feature", "__not_aligned"):
+                            fh.write("%s\t%d\n" % (stat, 0))
+        samples.append(smp)
+    call(g, stats.combine_counts, Obj(samples=samples), d)
+    for level in ("gene", "transcript"):
+        for kind in ("counts", "tpm"):
+            lines = open(os.path.join(d, "combined_%s_%s.tsv" % (level, kind))).read().splitlines()
+            rows = {l.split("\t")[0]: l.split("\t")[1:] for l in lines[1:]}
+            g.check(sorted(rows) == sorted(feats), "the combined %s %s table has one row per feature of the experiments' tables" % (level, kind),
+                    detail={"rows": sorted(rows), "features": feats})
+            for f in feats:
+                if f in rows:
+                    g.check(AND([g.unsentinel_real(rows[f][i]) == vals[(i, level, kind, f)] for i in range(2)]),
+                            "combined %s %s: the column of an experiment holds its own value" % (level, kind), detail={"feature": f})
+
+
 def instances(tier, seed):
     q = tier == "quick"
     G = "src.graph_based_model_construction:GraphBasedModelConstructor."
@@ -476,9 +527,16 @@ def instances(tier, seed):
                                                                      "src.dataset_processor:set_polya_requirement_strategy"],
                         "two experiments with symbolic assignment totals, polyA counts and unmapped reads; every --polya_requirement and preset flag",
                         weight=40, budget_s=900))
+    out.append(Instance("combine_counts", h_combine_counts, ["src.stats:combine_counts", "src.stats:combine_table", "src.stats:transform_counts"],
+                        "two experiments x 2-4 features, gene / transcript count and TPM tables with symbolic values", weight=20))
     for n in ((2, 3) if q else (2, 3, 4)):
         out.append(Instance("combined_table[experiments=%d]" % n, h_combined_table(n), ["src.stats:combine_table", "src.stats:transform_counts"],
                             "%d experiments x 3 features, any subset reported, symbolic counts (sentinel numerals through pandas)" % n, weight=8 ** n, budget_s=900))
+    # read collection of one experiment (also an empty one) leaves the shared run options untouched (hand-off harness of C08/C09)
+    from props import handoff
+    for n_ in (0, 1):
+        out.append(Instance("collect_reads_keeps_options[alignments=%d]" % n_, handoff.h_handoff(n_),
+                            ["src.dataset_processor:DatasetProcessor.collect_reads"], "%d alignments, both memory modes" % n_, weight=10))
     for mode in ("yaml", "list"):
         out.append(Instance("experiment_names[%s]" % mode, h_experiment_names(mode),
                             ["src.input_data_storage:InputDataStorage.__init__", "src.input_data_storage:InputDataStorage.get_samples_from_" + ("yaml" if mode == "yaml" else "file")],
